@@ -195,6 +195,7 @@ def run_case(ctx, k, rng):
     if rng.random() < 0.3:
         dgms.append(np.array([[1.0, 2.0]]))
     ctx.begin(k, style, {"bars": bars, "hom_deg": hom})
+    bars0 = bars.copy()             # pristine copy: every reference value is computed from it
     if len(bars) >= 3 and overlapping(bars):
         ctx.mark_nontrivial(sorted(map(tuple, bars.tolist())))
     try:
@@ -203,7 +204,9 @@ def run_case(ctx, k, rng):
         ctx.exception("constructs", e)
         return
     ctx.check("constructs", isinstance(depths, list), got=type(depths).__name__)
-    judge(ctx, bars, depths, copies)
+    judge(ctx, bars0, depths, copies)
+    if not np.array_equal(bars, bars0):
+        bars = bars0.copy()         # (a change to the caller's array is C19's finding; keep judging this property on the real values)
     if rng.random() < 0.05:
         ib, fb, dn = vforms.near_limit_int_diagram(rng, int(rng.integers(1, 7)))
         ctx.set_payload({"bars": ib, "dtype": dn, "hom_deg": 0})
@@ -214,6 +217,40 @@ def run_case(ctx, k, rng):
         except Exception as e:
             ctx.exception("constructs [narrow integer dtype near its limits]", e, dtype=dn)
         ctx.set_payload({"bars": bars, "hom_deg": hom})
+    if rng.random() < 0.08:
+        # API history on a lazily built object (compute=False): accessors in any order, then the critical points are read. Whatever
+        # an accessor does (return a depth function, raise), what critical_pairs finally holds must be the whole landscape.
+        try:
+            del EVENTS[:]
+            ctx.ran()
+            P = PLE(dgms=dgms, hom_deg=hom, compute=False)
+            trail = []
+            for _ in range(int(rng.integers(1, 4))):
+                what = str(rng.choice(["by_depth", "getitem", "p_norm", "sup_norm", "compute", "neg", "add"]))
+                trail.append(what)
+                try:
+                    if what == "by_depth":
+                        P.compute_landscape_by_depth(int(rng.integers(0, 2)))
+                    elif what == "getitem":
+                        P[0]
+                    elif what == "p_norm":
+                        P.p_norm(p=2)
+                    elif what == "sup_norm":
+                        P.sup_norm()
+                    elif what == "compute":
+                        P.compute_landscape()
+                    elif what == "neg":
+                        -P
+                    else:
+                        P + P
+                except Exception:
+                    trail[-1] += "(raised)"
+            P.compute_landscape()
+            cl = sorted(i for w, i in EVENTS if w == "dup-shortcut")
+            judge(ctx, bars0, P.critical_pairs, cl, tag=" [lazy object after accessor calls]")
+            ctx.seen("lazy accessor trails", ",".join(trail))
+        except Exception as e:
+            ctx.exception("constructs [lazy object after accessor calls]", e)
     sub = int(rng.integers(0, 4))
     if sub == 0 and hom > 0:
         # the same bars as degree 0 must give the same landscape: hom_deg only selects
